@@ -27,7 +27,7 @@ def compare(run, ref):
     vend, vflags, vout = hidrun.terminal(run)
     if end_r == 'compile_error':
         return None
-    if vend in ('fuel', 'compile_error'):
+    if vend in ('fuel', 'compile_error', 'stop'):
         return None
     if vend == end_r and vflags == flags_r and vout == out_r:
         return None
@@ -41,7 +41,8 @@ def compare(run, ref):
 def _unit(a):
     src, cfgs, fuel, ref_fuel, watch_labels, want_ref, opts = a
     watch_yields = watch_labels == 'yields'
-    if watch_yields:
+    monitor = watch_labels == 'monitor'
+    if watch_yields or monitor:
         watch_labels = None
     from hidc.errors import CompilerError
     from hidc.codegen import CodeGen
@@ -88,7 +89,7 @@ def _unit(a):
             watch = sorted({ad for n, ad in p.labels.items() if p.label_sections[n] == 'code' and watch_labels(n)})
         if watch_yields:
             watch = [k for k, (op, _) in enumerate(p.code) if op == 'yield']
-        texts.append(sasm.to_driver(p, str(i), fuel, watch))
+        texts.append(sasm.to_driver(p, str(i), fuel, watch, monitor=monitor and not c.unchecked))
         slots.append((i, p))
     if texts:
         for (i, p), r in zip(slots, vmrun.run_batch(texts)):
